@@ -263,7 +263,7 @@ def env_atoms(desc, host_atoms):
                              "position": ("n", "mid", "c")[i], "chain": pchain,
                              "res_seq": pstart + i, "target": False,
                              "partner_centre": i == 1})
-        elif kind in ("omit", "alias"):
+        elif kind in ("omit", "alias", "altloc"):
             pass  # handled in host() / build_case()
         elif kind == "extra":
             # an atom the topology does not know, 1.5 A from CA of residue X
@@ -316,6 +316,33 @@ def build_case(desc):
                   if a["res_idx"] == e["_after"] and a["chain"] == e["chain"])
         atoms.insert(idx + 1, e)
     atoms = atoms + extra
+    if desc.get("shift"):
+        # the whole structure far from the origin: coordinates that fill
+        # their eight columns (sign / leading digit in the first one)
+        sh = np.asarray(desc["shift"], float)
+        for a in atoms:
+            a["xyz"] = a["xyz"] + sh
+    for dev in desc.get("env", []):
+        if dev[0] != "altloc":
+            continue
+        # the side chain of the target residue in two alternate locations
+        # with the given labels; the first listed one is the structure
+        _k, first, second = dev
+        ti = _target_idx(desc["pos"])
+        filed = []
+        for a in atoms:
+            if a["res_idx"] == ti and a["chain"] == "A" and \
+                    a["name"] not in ("N", "CA", "C", "O", "OXT") and \
+                    not a["name"].startswith("H"):
+                one = build.BAtom(a)
+                one["alt"] = first
+                two = build.BAtom(a)
+                two["alt"] = second
+                two["xyz"] = a["xyz"] + np.array([0.4, -0.3, 0.5])
+                filed += [one, two]
+            else:
+                filed.append(a)
+        return build.pdb_text(filed), info + einfo, atoms
     alias = {dev[1]: dev[2] for dev in desc.get("env", [])
              if dev[0] == "alias"}
     if alias:
@@ -854,6 +881,22 @@ def alias_cases(ffs=("AMBER",), names=None):
                             out.append({"x": x, "pos": pos, "ff": "PARSE",
                                         "opt": opt,
                                         "env": [["alias", canon, alt]]})
+    return out
+
+
+def altloc_cases(ff="AMBER", names=None,
+                 labels=(("A", "B"), ("B", "C"), ("1", "2"), ("b", "a"))):
+    """The side chain of the target residue listed in two alternate
+    locations; labels need not be A/B."""
+    out = []
+    for x in (names or T.AMINO):
+        if not sidechain_heavy(x, "mid"):
+            continue
+        for pos in corpus.POSITIONS:
+            for la, lb in labels:
+                for opt in ("default", "nodebump_noopt"):
+                    out.append({"x": x, "pos": pos, "ff": ff, "opt": opt,
+                                "env": [["altloc", la, lb]]})
     return out
 
 
